@@ -27,16 +27,18 @@ type aggSigned struct {
 }
 
 type aggState struct {
-	pubs    []*crypto.Key
-	pubDl   []*big.Int
-	signed  map[string]aggSigned // "R S" -> what it was produced for
+	pubs     []*crypto.Key
+	pubDl    []*big.Int
+	signed   map[string]aggSigned // "R S" -> what it was produced for
+	nonces   map[string]string    // R -> challenge it was used with
+	panicked bool                 // the transcript/coefficient code panicked in the last oracle call
 }
 
 func aggGet(st *State) *aggState {
 	if v, ok := st.V["agg"].(*aggState); ok {
 		return v
 	}
-	v := &aggState{signed: map[string]aggSigned{}}
+	v := &aggState{signed: map[string]aggSigned{}, nonces: map[string]string{}}
 	st.V["agg"] = v
 	return v
 }
@@ -94,6 +96,12 @@ func (as *aggState) selectedText(signers []int) string {
 }
 
 func (as *aggState) oracles(signers []int) (A crypto.Key, w []*big.Int, transcript []byte, ok bool) {
+	defer func() {
+		if e := recover(); e != nil {
+			as.panicked = true
+			ok = false
+		}
+	}()
 	key, coeffs, tr, err := crypto.VerifAggregateWeighted(as.pubs, signers)
 	if err != nil {
 		return crypto.Key{}, nil, nil, false
@@ -133,14 +141,32 @@ func execAggSig(st *State, line string) Result {
 		res.Out = "ok"
 	case "transcript":
 		signers := parseIntList(t[1])
+		as.panicked = false
 		_, _, tr, ok := as.oracles(signers)
 		res.Out = "err"
 		if ok {
 			res.Out = "ok " + Hex(tr)
 			res.Nontrivial = true
+			// independent reconstruction: 4-byte count, then 4-byte index and 32 key bytes per signer
+			var want []byte
+			be := func(n int) []byte { return []byte{byte(n >> 24), byte(n >> 16), byte(n >> 8), byte(n)} }
+			want = append(want, be(len(signers))...)
+			for _, i := range signers {
+				want = append(want, be(i)...)
+				if i >= 0 && i < len(as.pubs) && as.pubs[i] != nil {
+					want = append(want, as.pubs[i][:]...)
+				}
+			}
+			if string(want) != string(tr) {
+				res.PropKey, res.PropDesc = "C14:transcript-format", "transcript is not count ‖ (index ‖ key)*"
+			}
 		}
 		if ok != as.wellFormed(signers) {
 			res.PropKey, res.PropDesc = "C14:malformed-signers", fmt.Sprintf("signer list %s accepted=%v", t[1], ok)
+		}
+		if as.panicked {
+			res.Out = "panic"
+			res.PropKey, res.PropDesc = "C14:panic", "collectAggregateSigners panicked on signer list "+t[1]
 		}
 	case "sign": // sign <signers> <privs> <seed hex> <msg> [w z x]
 		signers := parseIntList(t[1])
@@ -205,6 +231,11 @@ func execAggSig(st *State, line string) Result {
 			if zs == "unknown" {
 				res.PropKey, res.PropDesc = "C14:signature-equation", "S − x·Σwᵢyᵢ is not the discrete log of R"
 			}
+			// the same nonce must never meet two different challenges (that would reveal Σwᵢyᵢ)
+			if prev, seen := as.nonces[zs]; seen && prev != x.String() {
+				res.PropKey, res.PropDesc = "C14:nonce-reuse", "AggregateSign used one nonce commitment R for two different challenges"
+			}
+			as.nonces[zs] = x.String()
 			as.signed[fmt.Sprintf("%s %s", zs, S)] = aggSigned{keys: as.selectedText(signers), signers: t[1], msg: t[4]}
 		}
 		if out == "ok" && !as.wellFormed(signers) {
@@ -431,7 +462,8 @@ func genAggSigCase(r *Rand, idx int, tier string) []string {
 	seedLen := Pick(r, []int{32, 32, 32, 32, 32, 32, 33, 48, 64, 100, 31, 0, 1})
 	msg := Hex(r.Bytes(32))
 	emit("transcript " + intsTok(signers))
-	sres := emit(fmt.Sprintf("sign %s %s %s %s", intsTok(signers), pstr, Hex(r.Bytes(seedLen)), msg))
+	seedHex := Hex(r.Bytes(seedLen))
+	sres := emit(fmt.Sprintf("sign %s %s %s %s", intsTok(signers), pstr, seedHex, msg))
 	if !strings.HasPrefix(sres.Out, "ok") {
 		// nothing signed: verification of an arbitrary pair must fail as well
 		emit(fmt.Sprintf("verify %s %s %s %s", intsTok(signers), randScalar(r), randScalar(r), msg))
@@ -523,8 +555,15 @@ func genAggSigCase(r *Rand, idx int, tier string) []string {
 			emit("pub " + strings.Join(toks, " "))
 		}
 	}
-	if r.Chance(1, 3) { // determinism / nonce separation: sign again with another message
-		emit(fmt.Sprintf("sign %s %s %s %s", intsTok(signers), pstr, Hex(r.Bytes(32)), Hex(r.Bytes(32))))
+	if r.Chance(1, 2) { // nonce separation: same keys and seed, another message / another seed / the same again
+		switch r.Intn(3) {
+		case 0:
+			emit(fmt.Sprintf("sign %s %s %s %s", intsTok(signers), pstr, seedHex, Hex(r.Bytes(32))))
+		case 1:
+			emit(fmt.Sprintf("sign %s %s %s %s", intsTok(signers), pstr, Hex(r.Bytes(32)), msg))
+		default:
+			emit(fmt.Sprintf("sign %s %s %s %s", intsTok(signers), pstr, seedHex, msg))
+		}
 	}
 	return lines
 }
